@@ -20,13 +20,13 @@ import (
 
 	"github.com/sassoftware/relic/v8/cmdline/shared"
 	"github.com/sassoftware/relic/v8/config"
-	"github.com/sassoftware/relic/v8/zzverif/bridge"
 	"github.com/sassoftware/relic/v8/lib/certloader"
 	"github.com/sassoftware/relic/v8/lib/magic"
 	"github.com/sassoftware/relic/v8/lib/x509tools"
 	"github.com/sassoftware/relic/v8/signers"
 	"github.com/sassoftware/relic/v8/token"
 	"github.com/sassoftware/relic/v8/token/open"
+	"github.com/sassoftware/relic/v8/zzverif/bridge"
 
 	_ "github.com/sassoftware/relic/v8/signers/apk"
 	_ "github.com/sassoftware/relic/v8/signers/appmanifest"
@@ -102,8 +102,8 @@ func OpenTokenByKey(cfg *config.Config, keyName string) (token.Token, error) {
 
 // SignOpts describes one standalone signing.
 type SignReq struct {
-	SigType string     // "" = auto-detect like the command
-	Key     string     // key name
+	SigType string // "" = auto-detect like the command
+	Key     string // key name
 	Hash    crypto.Hash
 	Flags   url.Values // signer flags by name
 	In, Out string
